@@ -424,6 +424,15 @@ class Run:
 
     # --- peer-side actions ---------------------------------------------------
     def frame_text(self, text, defl=None):
+        # with permessage-deflate negotiated the peer really uses it (RSV1 + deflated payload, shared context) for two
+        # of every three data messages, so control frames arrive right after compressed *and* after plain messages
+        if self.case["deflate"]:
+            self._peer_msgs = getattr(self, "_peer_msgs", 0) + 1
+            if self._peer_msgs % 3 != 0:
+                if getattr(self, "_peer_deflater", None) is None:
+                    self._peer_deflater = ws.Deflater()
+                self.compressed_peer_msgs = getattr(self, "compressed_peer_msgs", 0) + 1
+                return ws.build_frame(1, self._peer_deflater.compress(text.encode()), rsv=4, mask=self.key())
         return ws.build_frame(1, text.encode(), mask=self.key())
 
     def close_frame(self, kind, code, reason):
